@@ -8,7 +8,8 @@ C08 helper lemmas: the invariant behind "macros end with their keys released".
   RepOK    the sequences remembered by `RepeatingSequence` states are of that shape too
 
 `process_sequences` preserves it as long as the ring holds at most 4 sequences (it never evicts
-then); starting a sequence preserves it when the ring has room; the cancellation paths establish it.
+then); starting a sequence preserves it whether or not the ring has room (`start_sequence` releases
+what an evicted sequence still owed); the cancellation paths establish it.
 When no sequence is active, `Owed` says that no `FakeKey` is left.
 -/
 import KVerif.Lemmas.MacroPlay
@@ -358,50 +359,143 @@ theorem oshOther_seqs (s : Layout) (b : Bool) (c : Coord) :
     (oshOther s b c).1.activeSequences = s.activeSequences := by
   unfold oshOther; split <;> rfl
 
+theorem releaseEvicted_sub (q : SeqState) : ∀ (states : List St) (x : St),
+    x ∈ releaseEvicted states q → x ∈ states := by
+  unfold releaseEvicted
+  generalize seqOwedKeys q = ks
+  induction ks with
+  | nil => intro states x h; exact h
+  | cons k ks ih =>
+    intro states x h
+    simp only [List.foldl_cons] at h
+    exact (List.mem_filter.mp (ih _ x h)).1
+
+theorem releaseEvicted_fake (q : SeqState) : ∀ (states : List St) (k : KeyCode),
+    St.fakeKey k ∈ releaseEvicted states q → k ∉ seqOwedKeys q := by
+  unfold releaseEvicted
+  generalize seqOwedKeys q = ks
+  induction ks with
+  | nil => intro states k _; simp
+  | cons k' ks ih =>
+    intro states k h
+    simp only [List.foldl_cons] at h
+    have h1 := ih _ k h
+    have h2 : St.fakeKey k ∈ states.filter (·.seqRelease k') := by
+      have : ∀ (l : List KeyCode) (st : List St) (x : St),
+          x ∈ l.foldl (fun st k => st.filter (·.seqRelease k)) st → x ∈ st := by
+        intro l
+        induction l with
+        | nil => intro st x h; exact h
+        | cons a l ih' => intro st x h; simp only [List.foldl_cons] at h; exact (List.mem_filter.mp (ih' _ x h)).1
+      exact this ks _ _ h
+    obtain ⟨_, hne⟩ := fake_mem_filter_seqRelease h2
+    simp only [List.mem_cons, not_or]
+    exact ⟨hne, h1⟩
+
+theorem mem_seqOwedKeys {q : SeqState} {k : KeyCode} (h : SeqEv.release k ∈ q.remaining) : k ∈ seqOwedKeys q := by
+  unfold seqOwedKeys
+  simp only [List.mem_append, List.mem_filterMap]
+  exact Or.inr ⟨.release k, h, rfl⟩
+
+/-- `start_sequence` with room in the ring: the sequence is appended, nothing else changes -/
+theorem startSequence_room (s : Layout) (evs : List SeqEv) (h : s.activeSequences.length < ACTIVE_SEQ_CAP) :
+    (startSequence s evs).activeSequences = s.activeSequences ++ [{ remaining := evs }] ∧
+    (startSequence s evs).states = s.states := by
+  unfold startSequence
+  simp only [pushBackWrap, h, if_true, and_self]
+
+/-- **`start_sequence` keeps the invariant, full ring or not**: what the evicted sequence owed is
+released with it -/
+theorem startSequence_inv (s : Layout) (evs : List SeqEv) (h : SeqInv s) (hev : EvsOK evs) :
+    SeqInv (startSequence s evs) ∧
+    (startSequence s evs).activeSequences.length ≤ s.activeSequences.length + 1 := by
+  by_cases hroom : s.activeSequences.length < ACTIVE_SEQ_CAP
+  · obtain ⟨r1, r2⟩ := startSequence_room s evs hroom
+    refine ⟨⟨?_, ?_, ?_, ?_⟩, by rw [r1]; simp⟩
+    · intro q hq
+      rw [r1] at hq
+      rcases List.mem_append.mp hq with hq | hq
+      · exact h.ok q hq
+      · simp only [List.mem_singleton] at hq; subst hq; exact ⟨rfl, hev⟩
+    · intro k hk
+      rw [r2] at hk
+      obtain ⟨q, hq, hr⟩ := h.owed k hk
+      exact ⟨q, by rw [r1]; simp [hq], hr⟩
+    · rw [r2]; exact h.rep
+    · rw [r1]; simp only [List.length_append, List.length_singleton]; omega
+  · cases hs : s.activeSequences with
+    | nil => rw [hs] at hroom; simp at hroom
+    | cons q0 t =>
+      have hcap := h.cap
+      rw [hs] at hcap hroom
+      have e1 : (startSequence s evs).activeSequences = t ++ [{ remaining := evs }] := by
+        unfold startSequence; simp only [pushBackWrap, hs, hroom, if_false]
+      have e2 : (startSequence s evs).states = releaseEvicted s.states q0 := by
+        unfold startSequence; simp only [pushBackWrap, hs, hroom, if_false]
+      refine ⟨⟨?_, ?_, ?_, ?_⟩, by rw [e1]; simp⟩
+      · intro q hq
+        rw [e1] at hq
+        rcases List.mem_append.mp hq with hq | hq
+        · exact h.ok q (by rw [hs]; exact List.mem_cons_of_mem _ hq)
+        · simp only [List.mem_singleton] at hq; subst hq; exact ⟨rfl, hev⟩
+      · intro k hk
+        rw [e2] at hk
+        have hin := releaseEvicted_sub q0 _ _ hk
+        have hno := releaseEvicted_fake q0 _ _ hk
+        obtain ⟨q, hq, hr⟩ := h.owed k hin
+        rw [hs] at hq
+        rcases List.mem_cons.mp hq with rfl | hq
+        · exact absurd (mem_seqOwedKeys hr) hno
+        · exact ⟨q, by rw [e1]; simp [hq], hr⟩
+      · intro e c' hm
+        rw [e2] at hm
+        exact h.rep e c' (releaseEvicted_sub q0 _ _ hm)
+      · rw [e1]
+        simp only [List.length_append, List.length_cons, List.length_nil] at hcap ⊢; omega
+
 theorem armSequence_states (s : Layout) (a : Action) (evs : List SeqEv) (c : Coord) (o rep : Bool) :
     (armSequence s a evs c o rep).states =
-      if rep then pushCap STATES_CAP s.states (.repeatingSequence evs c) else s.states := by
+      if rep then pushCap STATES_CAP (startSequence s evs).states (.repeatingSequence evs c)
+      else (startSequence s evs).states := by
   unfold armSequence
   cases rep <;> simp only [Bool.false_eq_true, if_false, if_true, oshOther_states] <;> rfl
 
 theorem armSequence_seqs (s : Layout) (a : Action) (evs : List SeqEv) (c : Coord) (o rep : Bool) :
-    (armSequence s a evs c o rep).activeSequences =
-      (pushBackWrap ACTIVE_SEQ_CAP s.activeSequences { remaining := evs }).1 := by
+    (armSequence s a evs c o rep).activeSequences = (startSequence s evs).activeSequences := by
   unfold armSequence
   cases rep <;> simp only [Bool.false_eq_true, if_false, if_true, oshOther_seqs] <;> rfl
 
-/-- **starting a macro with room in the ring** keeps the invariant -/
+/-- **starting a macro keeps the invariant**, whether or not the ring has room; with room the
+sequence is appended and the other sequences are untouched -/
 theorem armSequence_inv (s : Layout) (a : Action) (evs : List SeqEv) (c : Coord) (o rep : Bool)
-    (h : SeqInv s) (hev : EvsOK evs) (hroom : s.activeSequences.length < ACTIVE_SEQ_CAP) :
+    (h : SeqInv s) (hev : EvsOK evs) :
     SeqInv (armSequence s a evs c o rep) ∧
-    (armSequence s a evs c o rep).activeSequences = s.activeSequences ++ [{ remaining := evs }] := by
+    (armSequence s a evs c o rep).activeSequences.length ≤ s.activeSequences.length + 1 ∧
+    (s.activeSequences.length < ACTIVE_SEQ_CAP →
+      (armSequence s a evs c o rep).activeSequences = s.activeSequences ++ [{ remaining := evs }]) := by
+  obtain ⟨i, hl⟩ := startSequence_inv s evs h hev
   have hs := armSequence_seqs s a evs c o rep
-  simp only [pushBackWrap, hroom, if_true] at hs
   have hst := armSequence_states s a evs c o rep
-  refine ⟨⟨?_, ?_, ?_, ?_⟩, hs⟩
-  · intro q hq
-    rw [hs, List.mem_append] at hq
-    rcases hq with hq | hq
-    · exact h.ok q hq
-    · simp only [List.mem_singleton] at hq; subst hq; exact ⟨rfl, hev⟩
+  refine ⟨⟨?_, ?_, ?_, ?_⟩, by rw [hs]; exact hl, fun hroom => by rw [hs]; exact (startSequence_room s evs hroom).1⟩
+  · rw [hs]; exact i.ok
   · intro k hk
     rw [hst] at hk
-    have hk' : St.fakeKey k ∈ s.states := by
+    have hk' : St.fakeKey k ∈ (startSequence s evs).states := by
       split at hk
       · rcases mem_pushCap hk with hk | hk
         · exact hk
         · cases hk
       · exact hk
-    obtain ⟨q, hq, hr⟩ := h.owed k hk'
-    exact ⟨q, by rw [hs]; simp [hq], hr⟩
+    obtain ⟨q, hq, hr⟩ := i.owed k hk'
+    exact ⟨q, by rw [hs]; exact hq, hr⟩
   · intro evs' c' hm
     rw [hst] at hm
     split at hm
     · rcases mem_pushCap hm with hm | hm
-      · exact h.rep evs' c' hm
+      · exact i.rep evs' c' hm
       · injection hm with h1 h2; subst h1; exact hev
-    · exact h.rep evs' c' hm
-  · rw [hs]; simp only [List.length_append, List.length_singleton]; omega
+    · exact i.rep evs' c' hm
+  · rw [hs]; exact i.cap
 
 theorem armCancelSequences_fields (s : Layout) (a : Action) (c : Coord) (o : Bool) :
     (armCancelSequences s a c o).activeSequences = [] ∧
